@@ -1175,7 +1175,8 @@ class quantized_linear(base_quantizer.BaseQuantizer):
         "keep_negative": self.keep_negative,
         "use_stochastic_rounding": self.use_stochastic_rounding,
         "scale_axis": self.scale_axis,
-        "qnoise_factor": self.qnoise_factor,
+        "qnoise_factor": self.qnoise_factor.numpy() if isinstance(
+            self.qnoise_factor, tf.Variable) else self.qnoise_factor,
     }
     return config
 
